@@ -18,6 +18,8 @@ mod c07;
 mod c07b;
 mod c08;
 mod c09;
+mod c11;
+mod c10;
 mod c16;
 mod c17;
 mod c18;
@@ -101,8 +103,12 @@ fn search(twin: &str, case: Option<&str>, seed: u64) -> Option<Value> {
         c19::search(twin, case, seed)
     } else if twin.starts_with("c09.") {
         c09::search(twin, case, seed)
+    } else if twin.starts_with("c10.") {
+        c10::search(twin, case, seed)
     } else if twin.starts_with("c08.") {
         c08::search(twin, case, seed)
+    } else if twin.starts_with("c11.") {
+        c11::search(twin, case, seed)
     } else if twin.starts_with("c20.") {
         c20::search(twin, case, seed)
     } else if twin.starts_with("c22.") {
@@ -139,8 +145,12 @@ fn replay(twin: &str, input: &Value) -> Value {
         c19::replay(twin, input)
     } else if twin.starts_with("c09.") {
         c09::replay(twin, input)
+    } else if twin.starts_with("c10.") {
+        c10::replay(twin, input)
     } else if twin.starts_with("c08.") {
         c08::replay(twin, input)
+    } else if twin.starts_with("c11.") {
+        c11::replay(twin, input)
     } else if twin.starts_with("c20.") {
         c20::replay(twin, input)
     } else if twin.starts_with("c22.") {
@@ -177,8 +187,12 @@ fn sweep(twin: &str, seed: u64) -> Value {
         c19::sweep(twin, seed)
     } else if twin.starts_with("c09.") {
         c09::sweep(twin, seed)
+    } else if twin.starts_with("c10.") {
+        c10::sweep(twin, seed)
     } else if twin.starts_with("c08.") {
         c08::sweep(twin, seed)
+    } else if twin.starts_with("c11.") {
+        c11::sweep(twin, seed)
     } else if twin.starts_with("c20.") {
         c20::sweep(twin, seed)
     } else if twin.starts_with("c22.") {
